@@ -691,3 +691,26 @@ fn col_remove_row_second_identifier_byte() {
     drop(a);
     assert!(all_dead());
 }
+
+/// the table of component-less entities has rows too: clone / clone_from copy its identifier
+/// column and length (there is no component column to copy)
+#[kani::proof]
+#[kani::unwind(6)]
+fn col_clone_componentless_table() {
+    let mut alloc = entity::Allocator::<R>::new();
+    let mut a = arch(0b000);
+    let i0 = unsafe { a.push(entity!(), &mut alloc) };
+    let i1 = unsafe { a.push(entity!(), &mut alloc) };
+    let b = a.clone();
+    assert!(b.len() == 2, "C10: the clone of the component-less table holds the same number of entities");
+    let ids_b = b.entity_identifiers.0 as *const entity::Identifier;
+    unsafe { assert!(*ids_b == i0 && *ids_b.add(1) == i1, "C10: same identifiers, same rows") };
+    assert!(a.entity_identifiers.0 != b.entity_identifiers.0, "C10: no shared allocation");
+    assert!(unsafe { a.component_eq(&b) }, "C16: a clone compares equal");
+    let mut c = arch(0b000);
+    unsafe { c.push(entity!(), &mut alloc) };
+    c.clone_from(&a);
+    assert!(c.len() == 2, "C10: clone_from into a component-less table that held one entity");
+    let ids_c = c.entity_identifiers.0 as *const entity::Identifier;
+    unsafe { assert!(*ids_c == i0 && *ids_c.add(1) == i1, "C10: same identifiers, same rows") };
+}
